@@ -27,9 +27,6 @@ def rule(key, dig, desc, kinds):
     es = entries(rid)
     ps = [e for e in es if not e["ret"]]
     anyk = lambda *ks: any(k in kinds for k in ks)  # noqa: E731
-    # g1_35_1: Union[int, str] = 3 -> set_default_doc calls quote(3): AttributeError 'int' object has no attribute 'value'
-    if any(e["typ"] == "Union[int, str]" and e["default"] == 3 for e in es) and (anyk("class", *FN) or cfg.endswith("_T") or cfg.startswith(("chain", "stab"))):
-        return "KF-RT-quote-nonstr-default"
     # g3_11_6_0: a return entry that has prose but no type: class annotates it `object`, google reads the prose line as the type,
     # numpydoc writes the prose where the type belongs and reads 'Returns' / '-------' back as parameter names
     if any(e["ret"] and e["typ"] is None for e in es) and anyk("class", "numpydoc", "google"):
@@ -38,12 +35,9 @@ def rule(key, dig, desc, kinds):
     # the type line as prose, emit.function with inline_types=False has no ':returns:' line to hang the ':rtype:' on
     if any(e["ret"] and not e["doc"] for e in es) and anyk("numpydoc", "google", *FN):
         return "KF-RT-ret-noprose"
-    # g1_10_1 / g1_26_1: a str / Optional[str] parameter whose default is '' -> dangling 'Defaults to' (doc kinds), SyntaxError (numpydoc), None instead of '' (class)
-    if any(e["default"] == "" and isinstance(e["default"], str) for e in es):
-        return "KF-RT-empty-str-default"
-    # g1_42_1: ```np.empty(0)``` - a code default with a dot outside parentheses is cut at the dot ('np'), the rest lands in the prose
-    if any(is_code(e["default"]) and "." in e["default"] and not e["default"].startswith("```(") for e in es):
-        return "KF-RT-dotted-code-default"
+    # class_F|g1_28_1: Optional[str] = '' is emitted as `a: Optional[str] = None` by emit.class_ (the falsy default is dropped)
+    if anyk("class") and any(e["default"] == "" and isinstance(e["default"], str) and e["typ"] == "Optional[str]" for e in es):
+        return "KF-RT-class-empty-str-to-none"
     # g1_2_1: untyped parameter with a str default: 'Defaults to x' is written unquoted and literal_eval('x') raises on the way back
     if any(e["typ"] is None and isinstance(e["default"], str) and e["default"] != ABSENT for e in ps) and (anyk("rest", *FN)):
         return "KF-RT-untyped-str-default-unquoted"
@@ -72,11 +66,6 @@ def rule(key, dig, desc, kinds):
     # emission builds an annotation out of None (cannot even be unparsed)
     if cfg.startswith("stab_") and anyk(*FN) and any(e["typ"] is None and e["default"] == ABSENT for e in ps):
         return "KF-RT-fn-untyped-typ-none"
-    # stab_google|g2_12_9: numpydoc/google force the default '' on a str parameter that follows a defaulted one (KF-RT-np-force-default),
-    # and the empty default is then written as a dangling 'Defaults to' that the next pass folds into the prose
-    if cfg.startswith(("stab_", "chain_")) and anyk("numpydoc", "google") and len(ps) >= 2 and any(
-            e["typ"] in ("str", "Optional[str]") and e["default"] == ABSENT for e in ps[1:]):
-        return "KF-RT-empty-str-default"
     # stab_google|g4_1_0: a google docstring with only a Returns section is read as prose
     if anyk("google") and not ps and any(e["ret"] for e in es):
         return "KF-RT-google-retonly"
@@ -107,9 +96,6 @@ def rule(key, dig, desc, kinds):
         # was seen" for numpydoc/google: the return entry acquires the zero value
         if any(k in FN for k in kinds[:-1]) and kinds[-1] in ("numpydoc", "google") and any(e["default"] == ABSENT for e in ps):
             return "KF-RT-np-force-default"
-        # chain_A|g1_31_1 (argparse -> method): argparse's zero value '' (a documented normalisation) meets the empty-string defect
-        if "argparse" in kinds[:-1] and any(e["default"] == ABSENT for e in ps):
-            return "KF-RT-empty-str-default"
     return None
 
 
